@@ -202,6 +202,9 @@ def construct(I, cls, args, kwargs):
 
 
 def call_special(I, fn, args, kwargs):
+    if fn.kind == "lrumethod":
+        wrapper, obj = fn.data
+        return lru_call(I, wrapper, [obj] + list(args), kwargs)
     kind = fn.kind
     if kind == "noop":
         return None
